@@ -72,6 +72,10 @@ def run_de_moor(job, ob):
     D = job["D"]
     for o in probkit.de_moor_tables(D):
         if o.exc is not None:
+            from ..harness import exc_origin
+            if exc_origin(o.exc) == "harness":
+                ob.fail_harness(f"harness raised: {o.exc!r}")
+                continue
             ob.fail_harness(f"raised {o.exc!r}")
             continue
         r = o.value
@@ -98,6 +102,10 @@ def run_mirjalili(job, ob):
     m, Q, D, w = job["m"], job["Q"], job["D"], job["weekday"]
     for o in probkit.mirjalili_tables(m, Q, D, w):
         if o.exc is not None:
+            from ..harness import exc_origin
+            if exc_origin(o.exc) == "harness":
+                ob.fail_harness(f"harness raised: {o.exc!r}")
+                continue
             ob.fail_harness(f"raised {o.exc!r}")
             continue
         r = o.value
